@@ -392,6 +392,23 @@ class C16(Prop):
             return sx([3, sizes, text, table, w, r]), tags
         return sx([4, sizes, text, w, r]), tags
 
+    def wide_block_case(self, rng, native=True):
+        n = 70300
+        name = "chr1"
+        recs = []; pos = 0
+        vals = ["1", "2.5", "0.125", "-3", "7"]
+        for k in range(n):
+            recs.append((pos, pos + 1, vals[k % len(vals)])); pos += 1 + (k % 3 == 0)
+        lens = {name: pos + 10}
+        text = b"".join(name.encode() + b"\t%d\t%d\t" % (s, e) + x.encode() + b"\n" for (s, e, x) in recs)
+        sizes, stag = self.sizes_text(rng, lens, plain=True)
+        table = [[t.encode(), f32bits(t)] for t in sorted(set(vals))]
+        w, wt = self.wopts(rng, True)
+        w[5] = [70000]; w[6] = []; w[7] = []; w[9] = 0 if native else 1; w[12] = 0
+        r = [[rng.choice([1, 4])], False, [], [], [], 0, 0]        # unrestricted read-back
+        tags = ["pipeline", "bedgraph", "block-size>65535", "values>65535", "oracle-only", "unrestricted"] + wt
+        return sx([3, sizes, text, table, w, r]), tags
+
     def malformed_case(self, rng, bg):
         sizes, text, table, per, lens, tags = self.input_case(rng, bg, "small")
         lines = text.split(b"\n")
@@ -564,6 +581,10 @@ class C16(Prop):
             out.append(self.pipeline_case(rng, bg, sc))
         for i in range(56 if quick else 600):
             out.append(self.malformed_case(rng, i % 2 == 0))
+        # a block size above 65535 together with a chromosome of more than 65535 values: the option must reach the
+        # index fan-out, not the per-section item count (a section stores its item count in 16 bits)
+        for i in range(1 if quick else 3):
+            out.append(self.wide_block_case(rng, native=(i % 2 == 0)))
         for c in out:
             yield c
 
